@@ -1,6 +1,6 @@
 (* C06 — Path confinement.  Only statements, closed by [exact], with Print Assumptions. *)
 From Coq Require Import List NArith Bool.
-From Alp Require Import Base.Str Model.Path Proofs.PathProofs.
+From Alp Require Import Base.Str Model.Path Proofs.PathProofs Model.Import Proofs.ImportProofs.
 Import ListNotations.
 
 (* A name is accepted iff it is a canonical relative path: non-empty and no "", "." or ".." component
@@ -13,6 +13,13 @@ Print Assumptions C06_valid_iff_canonical.
 Theorem C06_stored_name_normal : forall s : str, invalid_import_path s = false -> normpath_rel s = s.
 Proof. exact valid_normpath_id. Qed.
 Print Assumptions C06_stored_name_normal.
+
+(* The file name an import registers (what is left of the imported path once the detector's acquisition is taken off) is
+   itself a canonical name, and acquisition + "/" + file name is the imported path — for every path and every answer of a
+   detector; the path itself (file name "."), a sibling or a string prefix leave no name (fix F-C06d). *)
+Theorem C06_stored_file_name_canonical : forall p acq n : str, file_name p acq = Some n -> canonical n = true /\ p = acq ++ [47%N] ++ n.
+Proof. exact file_name_canonical. Qed.
+Print Assumptions C06_stored_file_name_canonical.
 
 (* root/name normalises to the normalised root followed by the name's components: never the root
    itself, never outside it — for every root (any spelling) and every accepted name. *)
